@@ -6,7 +6,7 @@ Event tuples (first field = kind, second = clock):
  accept    (k, t, nid, cid, class, prio, pop before, started now?, idle on-duty server before?, n waiting before, ctx)
  release   (k, t, nid, cid, dest, reroute?, was blocked?, dest pop before, dest capacity(engine), dest true pop)
  block     (k, t, nid, cid, dest, dest counter, dest capacity(engine), dest true pop)
- preempt   (k, t, nid, victim, new, victim prio, new prio, in service [(cid, prio, start, blocked)], victim service time,
+ preempt   (k, t, nid, victim, new, victim prio, new prio, in service [(cid, prio, start, blocked, server off duty)], victim service time,
             victim service end, victim reneging date)
  interrupt (k, t, nid, cid, blocked?, service time, service end, slotted?)
  finish_service (k, t, nid, candidate ids, candidates blocked flags)
@@ -145,7 +145,7 @@ def instrument(Q, tr):
         wrap(nd, 'block_individual', block)
 
         def preempt(orig, victim, newind, nid=nid, nd=nd):
-            inserv = [(s.cust.id_number, s.cust.priority_class, s.cust.service_start_date, s.cust.is_blocked) for s in nd.servers if s.cust]
+            inserv = [(s.cust.id_number, s.cust.priority_class, s.cust.service_start_date, s.cust.is_blocked, s.offduty) for s in nd.servers if s.cust]
             ev.append(('preempt', Q.current_time, nid, victim.id_number, newind.id_number, victim.priority_class, newind.priority_class,
                        inserv, victim.service_time, victim.service_end_date, getattr(victim, 'reneging_date', INF)))
             ctx.append(('preempt', nid, victim.id_number))
